@@ -539,7 +539,16 @@ def make_struct_module(E):
 
     def calcsize(fmt):
         return struct_size(struct_parse(fmt))
-    return ExternModule('struct', dict(pack=Builtin('struct.pack', pack), unpack=Builtin('struct.unpack', unpack),
+    def Struct(fmt):
+        # a precompiled format: the same operations with the format fixed
+        return SOpaque('struct.Struct', 'Struct(%r)' % (fmt,), attrs=dict(
+            pack=Builtin('Struct.pack', lambda *v: pack(fmt, *v)),
+            unpack=Builtin('Struct.unpack', lambda buf: unpack(fmt, buf)),
+            unpack_from=Builtin('Struct.unpack_from', lambda buf, offset=0: unpack_from(fmt, buf, offset)),
+            pack_into=Builtin('Struct.pack_into', lambda buf, offset, *v: pack_into(fmt, buf, offset, *v)),
+            size=calcsize(fmt), format=fmt))
+    return ExternModule('struct', dict(Struct=Builtin('struct.Struct', Struct),
+                                       pack=Builtin('struct.pack', pack), unpack=Builtin('struct.unpack', unpack),
                                        unpack_from=Builtin('struct.unpack_from', unpack_from),
                                        pack_into=Builtin('struct.pack_into', pack_into),
                                        calcsize=Builtin('struct.calcsize', calcsize),
